@@ -73,3 +73,56 @@ Proof. exact blank_lines_insertion. Qed.
 Theorem C16_blank_lines_at_top : forall lx file w b, lexicon_ok lx = true -> all_blank w -> ends_nl w ->
   view_of (scan lx file (w ++ b)) = view_of (scan lx file b).
 Proof. exact blank_lines_at_top. Qed.
+
+(** Comment lines in closed form: the hypotheses are purely about the inserted text.  A full-line
+    [;] comment (after any blank lines / indentation [w], any text [c] without a newline — NUL and
+    the characters other conventions read as line ends included) and a [/* */] comment ([c] any
+    text without the closing pair: newlines, [;], quotes, slashes and stars included; followed by
+    blanks up to a line end) are invisible between two lines and at the top of a file. *)
+From A816 Require Import Proofs.ScannerComments Proofs.ScannerColumns.
+Theorem C16_line_comment : forall lx file a w c b ta ea la,
+  lexicon_ok lx = true -> ends_nl a -> scan lx file a = ScanOk (ta ++ [ea]) la ->
+  all_blank w -> ~ In 10%Z c ->
+  view_of (scan lx file (a ++ (w ++ 59%Z :: c ++ [10%Z]) ++ b)) = view_of (scan lx file (a ++ b)).
+Proof. exact line_comment_block_invisible. Qed.
+Theorem C16_line_comment_at_top : forall lx file w c b,
+  lexicon_ok lx = true -> all_blank w -> ~ In 10%Z c ->
+  view_of (scan lx file ((w ++ 59%Z :: c ++ [10%Z]) ++ b)) = view_of (scan lx file b).
+Proof. exact line_comment_block_invisible_at_top. Qed.
+Theorem C16_block_comment : forall lx file a w c w2 b ta ea la,
+  lexicon_ok lx = true -> ends_nl a -> scan lx file a = ScanOk (ta ++ [ea]) la ->
+  all_blank w -> all_blank w2 -> ends_nl w2 -> no_close c ->
+  view_of (scan lx file (a ++ (w ++ 47%Z :: 42%Z :: c ++ 42%Z :: 47%Z :: w2) ++ b)) = view_of (scan lx file (a ++ b)).
+Proof. exact block_comment_invisible. Qed.
+Theorem C16_block_comment_at_top : forall lx file w c w2 b,
+  lexicon_ok lx = true -> all_blank w -> all_blank w2 -> ends_nl w2 -> no_close c ->
+  view_of (scan lx file ((w ++ 47%Z :: 42%Z :: c ++ 42%Z :: 47%Z :: w2) ++ b)) = view_of (scan lx file b).
+Proof. exact block_comment_invisible_at_top. Qed.
+
+(** Indentation: spaces and tabs put in front of a line change nothing but the columns on that
+    line — an exact equation for tokens, errors, quoted line and the recorded lines, at the top of
+    a text and (with the compositionality theorem) at any line start. *)
+Theorem C16_indentation_at_top : forall lx file w s, blank_nonl w ->
+  scan lx file (w ++ s) = cshift_result w (scan lx file s).
+Proof. exact indentation_at_top. Qed.
+Theorem C16_indentation : forall lx file a w s ta ea la,
+  lexicon_ok lx = true ->
+  ends_nl a -> scan lx file a = ScanOk (ta ++ [ea]) la -> blank_nonl w ->
+  view_nocol (scan lx file (a ++ w ++ s)) = view_nocol (scan lx file (a ++ s)) /\
+  scan lx file (a ++ w ++ s) =
+    shift_result (count_nl a) ta (removelast la) (cshift_result w (scan lx file s)).
+Proof. exact indentation_insertion. Qed.
+
+(** Any other change inside lines (trailing blanks, an end-of-line comment, spaces inside an
+    operand) is reduced to a decidable fact about the changed lines alone: two blocks of whole lines
+    that scan by themselves to the same significant tokens are interchangeable anywhere.  (The
+    general single-line fact for trailing blanks / end-of-line comments is NOT proved: partial;
+    instances are computed in Proofs/ScannerColumns.v and the metamorphic twins cover the rest.) *)
+Theorem C16_line_replacement_partial : forall lx file a l1 l2 b ta ea la t1 e1 ls1 t2 e2 ls2,
+  lexicon_ok lx = true ->
+  ends_nl a -> scan lx file a = ScanOk (ta ++ [ea]) la ->
+  ends_nl l1 -> scan lx file l1 = ScanOk (t1 ++ [e1]) ls1 ->
+  ends_nl l2 -> scan lx file l2 = ScanOk (t2 ++ [e2]) ls2 ->
+  sig t1 = sig t2 ->
+  view_of (scan lx file (a ++ l1 ++ b)) = view_of (scan lx file (a ++ l2 ++ b)).
+Proof. exact line_replacement. Qed.
